@@ -267,6 +267,71 @@ pub fn run_exhaustion_pool(image: &str) -> PoolResult {
   )
 }
 
+
+/// burst programs: N transfers inside ONE straight-line block (a single device catch-up in the
+/// block-stepped configurations), N up to several hundred, three store forms
+const BURSTS: [usize; 14] = [1, 2, 15, 16, 17, 18, 31, 32, 33, 64, 65, 128, 255, 300];
+
+fn burst_code(n: usize, form: usize) -> (Vec<u8>, Vec<u8>) {
+  let mut code: Vec<u8> = vec![0xF3];
+  let mut want = Vec::new();
+  for i in 0..n {
+    let v = 0x21 + (i % 94) as u8;
+    emit_write(&mut code, form, false, v);
+    emit_write(&mut code, form, true, 0x81);
+    want.push(v);
+  }
+  code.extend_from_slice(&gen::EPILOGUE);
+  (code, want)
+}
+
+fn run_burst(image: &str, case: u64, cap: &Cap, ctx: &mut Ctx) {
+  let n = BURSTS[(case as usize) % BURSTS.len()];
+  let form = (case as usize) / BURSTS.len();
+  let (code, want) = burst_code(n, form);
+  let mut core = progrun::fresh_core(image).expect("image loads");
+  progrun::patch_program(&mut core, gen::PROG_ORG, &code);
+  capture_reset(cap);
+  let mut steps = 0;
+  while core.run_state == crate::emulator::RunState::Run && steps < 4 * n + 64 {
+    progrun::step(&mut core);
+    steps += 1;
+  }
+  for _ in 0..16 {
+    progrun::step(&mut core);
+  }
+  let got = capture_read(cap);
+  ctx.count(0, 1);
+  ctx.count(1, want.len() as u64);
+  ctx.class(0x800 | n as u64);
+  if got != want {
+    let mut pos = 0usize;
+    while pos < got.len() && pos < want.len() && got[pos] == want[pos] {
+      pos += 1;
+    }
+    let kind = if got.len() < want.len() { "missing-bytes" } else if got.len() > want.len() { "extra-bytes" } else { "wrong-bytes" };
+    ctx.violation(&format!("C18 build={} burst form={} kind={}", progrun::this_build(), form_name(form).replace(' ', ""), kind), || {
+      J::obj()
+        .set("case", J::obj().set("transfers_in_one_block", J::u(n as u64)).set("store_form", J::s(form_name(form))))
+        .set("expected_len", J::u(want.len() as u64))
+        .set("observed_len", J::u(got.len() as u64))
+        .set("first_difference_at", J::u(pos as u64))
+    });
+  }
+}
+
+pub fn run_burst_pool(image: &str, workers: usize) -> PoolResult {
+  let opts = PoolOpts { workers, chunk: 1, bitmap_bits: 1 << 12, samples_per_child: 0, quiet_stdout: false, ..PoolOpts::default() };
+  let img = image.to_string();
+  run_pool(
+    (BURSTS.len() * FORMS) as u64,
+    &opts,
+    |slot| capture_begin(slot),
+    |cap, case, ctx| run_burst(&img, case, cap, ctx),
+    |case, how| (format!("C18 build={} burst crash={}", progrun::this_build(), how), J::obj().set("case", J::obj().set("burst_case", J::u(case)))),
+  )
+}
+
 fn meta_of(r: &PoolResult) -> J {
   let viol = J::Arr(r.violations.iter().map(|v| J::obj().set("key", J::s(v.key.as_str())).set("count", J::u(v.count)).set("detail", v.detail.clone())).collect());
   J::obj()
@@ -283,6 +348,7 @@ pub fn worker(args: &[String]) -> i32 {
     let mut r = run_build(&args[2], &args[1], crate::util::pool::default_workers());
     let r2 = run_exhaustion_pool(&args[2]);
     r.merge(r2);
+    r.merge(run_burst_pool(&args[2], 3));
     // keep our own stdout clean for the parent
     if std::fs::write(&args[3], meta_of(&r).to_string()).is_err() {
       return 2;
@@ -347,9 +413,10 @@ pub fn run(tier: &str) -> i32 {
   }
   let mut r = run_build(&image, tier, 8);
   r.merge(run_exhaustion_pool(&image));
+  r.merge(run_burst_pool(&image, 6));
   let progs = r.counters[0];
   let bytes = r.counters[1];
-  rep.add_stage("nojit-programs", &format!("every sequence of length <= {} over 10 SB/SC writes x 3 store forms ({} programs), non-jit build, fd 1 captured", depth, total_programs(depth)), r);
+  rep.add_stage("nojit-programs", &format!("every sequence of length <= {} over 10 SB/SC writes x 3 store forms ({} programs) + bursts of 1..300 transfers in one block + the cache-exhaustion program, non-jit build, fd 1 captured", depth, total_programs(depth)), r);
   let mut jit_progs = 0;
   match jit_child.unwrap().wait_with_output() {
     Ok(o) if o.status.success() => match progrun::parse_json_file(&jit_out) {
